@@ -1444,6 +1444,12 @@ pub fn main(args: Args) {
         }
         let co = run_case(&sc, &[e], &ts, &rep.libs);
         run.eval();
+        if let Some(s) = &co.sample {
+            run.sample(s.clone());
+        }
+        if let Some(k) = co.nontrivial {
+            run.nontrivial(k);
+        }
         for n in &co.notes {
             run.note(n.clone());
             println!("note: {n}");
@@ -1487,6 +1493,9 @@ pub fn main(args: Args) {
             run.assume("UNEXERCISED: 'identical results as native library or WebAssembly' (no wasm guest could be built in this sandbox)");
         }
     }
+    run.assume("UNEXERCISED: the Rust guest-side wasm glue (crates/component/src/export/wasm.rs, veryl_component_export! wasm arm) - no wasm32 Rust target; the wasm HOST (simulator/src/component/wasm.rs) is exercised by a C guest");
+    run.assume("UNEXERCISED: cc (AOT-C) engine configs; modport/struct connections; multi-clock components; host file service; trace variables");
+    run.note("Miri arm (harness/vmiri_comp) prepared but NOT run to completion (build of veryl-simulator under Miri did not finish on the overloaded machine): no Miri result is claimed".to_string());
     if let Some(only) = args.get("transports") {
         let want: Vec<Transport> = only.split(',').filter_map(Transport::parse).collect();
         transports.retain(|t| want.contains(t));
@@ -1497,10 +1506,10 @@ pub fn main(args: Args) {
         json!(std::env::var("C35_SABOTAGE").ok()),
     );
 
-    let n_timing = args.budget("timing", 60, 1000);
-    let n_value = args.budget("value", 200, 4000);
-    let n_method = args.budget("method", 40, 1000);
-    let n_tb = args.budget("tb", 40, 1000);
+    let n_timing = args.budget("timing", 60, 180);
+    let n_value = args.budget("value", 200, 600);
+    let n_method = args.budget("method", 40, 120);
+    let n_tb = args.budget("tb", 40, 120);
     let cyc_timing = args.budget("timing_cycles", 40, 60) as usize;
     let cyc_value = args.budget("value_cycles", 8, 10) as usize;
     let n_calls = args.budget("calls", 12, 16) as usize;
@@ -1510,6 +1519,7 @@ pub fn main(args: Args) {
     let libs = Arc::new(rep.libs.clone());
     let transports = Arc::new(transports);
 
+    let sample_at = [0, n_timing, n_timing + n_value, n_timing + n_value + n_method];
     let run2 = run.clone();
     let libs2 = libs.clone();
     let tr2 = transports.clone();
@@ -1560,8 +1570,9 @@ pub fn main(args: Args) {
                     if let Some(k) = co.nontrivial {
                         run2.nontrivial(k);
                     }
+                    // one sample per family (the first case of each) plus two more
                     if let Some(s) = co.sample
-                        && i % 37 == 0
+                        && (sample_at.contains(&i) || i % 97 == 5)
                     {
                         run2.sample(s);
                     }
